@@ -29,11 +29,11 @@ WIT = [
  ('nothing-traps-outside-tick-try', 'ON ERROR RESUME NEXT / x = 1 / 0 compiled without -g -> Trapped escapes run()'),
  ('handlers-raise-only-mapped-exceptions', 'PRINT USING "&"; 5 -> RuntimeError'),
  ('none-initialised-state-guarded:qvm/machine.py', 'x = PEEK(5) with the default segment -> TypeError (format of None)'),
- ('partial-operation-unmapped:qvm/cpu.py:QvmCpu._exec_cint', 'x# = 1D400 : y% = CINT(x#) -> OverflowError'),
- ('partial-operation-unmapped:qvm/cpu.py:QvmCpu._exec_clng', 'x# = 1D400 : y& = CLNG(x#) -> OverflowError'),
- ('partial-operation-unmapped:qvm/cpu.py:QvmCpu._exec_int', 'x# = 1D400 : y& = INT(x#) -> OverflowError'),
- ('partial-operation-unmapped:qvm/cpu.py:conv-family', 'x# = 1D400 : y& = x# -> OverflowError'),
- ('partial-operation-unmapped:qvm/cpu.py:QvmCpu._exec_exp', 'x# = 10 : y# = x# ^ 5000 -> OverflowError;  (-8) ^ 0.5 -> complex TypeError'),
+ ('partial-operation-unmapped:qvm/cpu.py:QvmCpu._exec_cint', 'x# = 1D400 : y# = x# - x# : z% = CINT(y#) -> ValueError (NaN); the OverflowError case (CINT(1D400)) is fixed'),
+ ('partial-operation-unmapped:qvm/cpu.py:QvmCpu._exec_clng', 'x# = 1D400 : y# = x# - x# : z& = CLNG(y#) -> ValueError (NaN)'),
+ ('partial-operation-unmapped:qvm/cpu.py:QvmCpu._exec_int', 'x# = 1D400 : y# = x# - x# : z& = INT(y#) -> ValueError (NaN)'),
+ ('partial-operation-unmapped:qvm/cpu.py:conv-family', 'x# = 1D400 : y# = x# - x# : z% = y# -> ValueError (NaN)'),
+ ('partial-operation-unmapped:qvm/cpu.py:QvmCpu._exec_exp', 'x# = -8 : y# = x# ^ 0.5# -> TypeError (complex result); the OverflowError case (10 ^ 5000) is fixed'),
  ('partial-operation-unmapped:qvm/cpu.py:QvmCpu._exec_strrep', 'PRINT STRING$(3, 300) -> ValueError'),
  ('partial-operation-unmapped:qvm/machine.py:TerminalDevice._exec_print', 'PRINT USING "##"; -> IndexError'),
  ('line-end-guard-siblings-agree', 'PRINT USING "##"; -> IndexError'),
@@ -69,6 +69,20 @@ FIXED = [
  ('C10', 'leave error-handling mode', 'C10.resume-targets:qvm/cpu.py:QvmCpu._exec_errres:leaves-handler-mode', 'after the first RESUME every later error was fatal and ret trapped NO_RESUME'),
  ('C10', 'leave error-handling mode', 'C10.resume-targets:qvm/cpu.py:QvmCpu._exec_errresn:leaves-handler-mode', 'same, RESUME NEXT'),
  ('C18', 'INPUT pushes values only after', 'C18.no-push-before-reject:qvm/machine.py:TerminalDevice._exec_input.push_vars', 'INPUT a%, b% answered "x,5" then "1,2" left 5 on the operand stack'),
+ ('C06', 'signs after ^', 'C06.parse-action-shape:qbee/grammar.py:parse_right_assoc_binary_expr:AssertionError', 'PRINT 2 ^ -1 -> AssertionError out of parse_string'),
+ ('C07', 'STRING$ with a character code', 'C07.partial-operation-unmapped:qvm/cpu.py:QvmCpu._exec_strrep:bytes', 'PRINT STRING$(3, 300) -> ValueError'),
+ ('C07', 'numeric overflow inside an instruction', 'C07.partial-operation-unmapped:qvm/cpu.py:QvmCpu._exec_cint:int-round', 'x# = 1D400 : y% = CINT(x#) -> OverflowError escaped run() (same for CLNG, INT, the conv family and x# ^ 5000); the NaN / complex cases of these keys remain known findings'),
+ ('C06', 'peephole rounds only values', 'C06.compile-time-partial-operation:qbee/qvm_codegen.py:QvmCode.optimize:round(push-operand)', 'x& = 1D400 at -O2 -> OverflowError in QvmCode.optimize'),
+ ('C07', 'PEEK outside the supported', 'C07.none-initialised-state-guarded:qvm/machine.py:BasePeripheralsImpl.memory_peek:self.cur_segment:format-spec', 'x = PEEK(5) with the default segment -> TypeError formatting None'),
+ ('C06', 'binary operation of unknown type', 'C06.generator-total:generator-raises:qbee/qvm_codegen.py:gen_binary_op:ValueError', 'x = 1 + ("a" * 2) -> ValueError in gen_code_for_conv (dead == Type.UNKNOWN check)'),
+ ('C16', 'accept the D exponent', 'C16.formatter-alphabet-accepted-by-readers:qvm/utils.py:format_number:marker[D]:DataDevice._exec_read', 'DATA 1D+20 : READ x# -> device error'),
+ ('C16', 'accept the D exponent', 'C16.formatter-alphabet-accepted-by-readers:qvm/utils.py:format_number:marker[D]:TerminalDevice._exec_input', 'INPUT x# answered 1D+20 (what PRINT shows) -> Redo from start'),
+ ('C13', 'missing frame and an indexed CONST', 'C13.only-evaluation-errors-escape:qvm/eval.py:QvmEval.eval_lvalue:raise ValueError', 'debugger: print k(1) (k a CONST) -> ValueError'),
+ ('C13', 'missing frame and an indexed CONST', 'C13.frame-state-guarded:qvm/eval.py:QvmEval.eval_lvalue:self.cpu.cur_frame.code_start', 'debugger: continue to the end, then print x -> AttributeError'),
+ ('C13', 'print in the debugger reports', 'C13.only-evaluation-errors-escape:qbee/expr.py:Expr.eval:raise InternalError', 'debugger: print len("a") -> InternalError'),
+ ('C13', 'print in the debugger reports', 'C13.only-evaluation-errors-escape:qbee/expr.py:Lvalue.type:raise CompileError', 'debugger: print x.y + 1 -> CompileError'),
+ ('C13', 'print in the debugger reports', 'C13.only-evaluation-errors-escape:qbee/expr.py:BinaryOp._eval_numeric.limit:raise OverflowError', 'debugger: print 32767% + 1% -> OverflowError'),
+ ('C13', 'print in the debugger reports', 'C13.partial-arithmetic-caught:qbee/expr.py:BinaryOp._eval_numeric:partial-arithmetic', 'debugger: print 1/0 -> ZeroDivisionError'),
 ]
 
 
